@@ -578,7 +578,19 @@ def run(c, facts, tier):
     # of the crate its resolved body reaches counts as an owner
     m8 = _mir.load(True)
     roots8 = [q for q in m8.bodies if _mir.e1_key(q, facts) == pk]
-    owners8 = sorted({_mir.e1_key(q, facts) for q in m8.reachable(roots8) if _mir.e1_key(q, facts) is not None and ("find_parser" in q or _mir.e1_key(q, facts) == pk)} | {pk})
+    def _bare_accumulation(key):
+        # a helper that IS the winnow accumulation and nothing else (`fn comma_list(item) { separated(1.., item, ",") }`): a
+        # wrapper that does anything to the collected list afterwards (dedup, sort, map) does not qualify
+        try:
+            sb_ = A.single_body(b.fn_ir(key))
+        except Exception:
+            return False
+        n_ = A.unwrap(sb_) if sb_ is not None else None
+        while n_ is not None and n_["t"] in ("ctx", "cut"):
+            n_ = A.unwrap(n_["p"])
+        return n_ is not None and n_["t"] in ("sep", "rep")
+
+    owners8 = sorted({k_ for k_ in (_mir.e1_key(q, facts) for q in m8.reachable(roots8)) if k_ is not None and k_ != pk and k_ in facts.fns and facts.fns[k_].impl is None and _bare_accumulation(k_)} | {pk})
     nacc = _mir.order_rule(c, facts, "C08.fold", owners8, "clauses must be applied in the order written (u+r,u-r ≠ u-r,u+r) and none may be dropped")
     c.ob("C08.fold", pk, "the clause list is an accumulation of the resolved program", nacc >= 1, "%d winnow accumulation(s) found in %s" % (nacc, pk), nontrivial=False)
     # ---------------------------------------------------------------- prefix
